@@ -175,7 +175,11 @@ def parse_archive(buf):
             break
         d, pos = parse_blob(buf, pos)
         s = dict(base)
-        s.update(d)
+        for k, v in d.items():
+            if len(v) == 0:
+                s.pop(k, None)      # a zero-size field in a delta means: no longer present
+            else:
+                s[k] = v
         snaps.append(s)
     return snaps
 
